@@ -1,8 +1,10 @@
 //go:debug randautoseed=0
+//go:debug randseednop=0
 
 package verifsim
 
 import (
+	mrand "math/rand"
 	"crypto/sha256"
 	"encoding/hex"
 	"encoding/json"
@@ -413,6 +415,13 @@ func replayMain(t *testing.T, sc *Scenario, path string) {
 		fmt.Println("REPLAY did not reproduce the recorded violation")
 		os.Exit(0)
 	}
+}
+
+// pinGlobalRand re-seeds the process-wide math/rand source (the only randomness repo dependencies draw
+// from: cenkalti/backoff's jitter) so that one plan is one execution regardless of what ran before it in
+// this process.
+func pinGlobalRand(seed uint64) {
+	mrand.Seed(int64(seed>>1) ^ 0x5eed)
 }
 
 // TestMeta prints a scenario's static metadata for the driver.
